@@ -305,6 +305,7 @@ func runC04Case(id string, c *c04Case) {
 		modeBefore := dev.Mode
 		cachedBefore := d.CurrentPriv
 		nlines := len(dev.CommandLines())
+		wBefore, _, _ := tr.Snapshot()
 		var e error
 		var res []string
 		target := ""
@@ -377,8 +378,9 @@ func runC04Case(id string, c *c04Case) {
 			if e == nil || errClass(e) != "privilege" {
 				cs.Oracle = fmt.Sprintf("op %d: unknown target %q not refused with a privilege error (%v)", i, target, e)
 				cs.Sig = "C04:unknown-target"
-			} else if len(dev.Log) > 0 && len(newLines) > 0 {
-				cs.Oracle = fmt.Sprintf("op %d: unknown target but the device was sent %v", i, newLines)
+			} else if wAfter, _, _ := tr.Snapshot(); len(wAfter) > len(wBefore) {
+				// "refused ... before anything is sent": not even a bare return
+				cs.Oracle = fmt.Sprintf("op %d: unknown target %q refused, but %d write(s) reached the device first: %q", i, target, len(wAfter)-len(wBefore), wAfter[len(wBefore):])
 				cs.Sig = "C04:unknown-target-sent"
 			}
 			continue
